@@ -252,6 +252,16 @@ func c20Bubble(tp *core.Tape, e *core.Env) (hist []string) {
 			logf("probe #%d of %s starts", len(t.probes), t.addr)
 		}
 	}
+	get := func(t *c20Target) *target.ScrapeStatus {
+		h := t.hash
+		r, _ := do("Get", func() interface{} { return w.EX.Get(h) }).(*target.ScrapeStatus)
+		if r != nil && !t.asked {
+			t.asked = true
+			t.askedAt = time.Now()
+		}
+		return r
+	}
+
 	releaseProbe := func(p *Probe) {
 		t := byHost[p.Host]
 		var rec *probeRec
@@ -287,22 +297,23 @@ func c20Bubble(tp *core.Tape, e *core.Env) (hist []string) {
 		if rec != nil {
 			rec.released, rec.outcome, rec.doneAt = true, outcome, p.DoneAt
 		}
+		// keep timer deadlines pairwise distinct: two retry sleeps that start in the
+		// same fake instant would wake in an order the Go runtime picks
+		time.Sleep(time.Millisecond)
+		w.Settle()
 		if outcome == "" && cur {
 			t.success = true
 			e.Probe("probe_succeeded")
 		}
+		// a target none of whose probes has succeeded must not look healthy with an
+		// estimate: the coordinator assigns on (health up, series, total)
+		if outcome != "" && cur && t.inDisc && !t.success && t.credits == 0 && len(t.old) == 0 {
+			if r := get(t); r != nil && r.Health == pscrape.HealthGood {
+				e.Violate("failed-probe-looks-healthy", "", "target %s: its only probes failed (%s) but Explore.Get reports health %q with series (%d,%d)", t.addr, outcome, r.Health, r.Series, r.TotalSeries)
+			}
+		}
 		logf("probe of %s ends: %q", t.addr, outcome)
 	}
-	get := func(t *c20Target) *target.ScrapeStatus {
-		h := t.hash
-		r, _ := do("Get", func() interface{} { return w.EX.Get(h) }).(*target.ScrapeStatus)
-		if r != nil && !t.asked {
-			t.asked = true
-			t.askedAt = time.Now()
-		}
-		return r
-	}
-
 	steps := tp.Range("steps", 10, 60)
 	for s := 0; s < steps && !e.Failed(); s++ {
 		w.Settle()
